@@ -36,7 +36,7 @@ T_SIGNAL = [
     "T3 SignalTerminator::recv (assumed: returns payload(self), requires a terminator popped by this call with the sender role, unused)",
     "T4 SignalTerminator::terminate (assumed: logs the termination)",
     "T5 Signal::wait: in U1 assumed to return delivered(self); its sequential contract (returns only after observing a final state, with acquire semantics, on the fast path, the yield phase, the failed-CAS path and the park loop) is PROVED on the real text in U2 and linked by the glue lemma; what stays assumed is the concurrent half (R2a/R2b: final states are final, only the waiter stores LOCKED_STARVATION) and park/unpark liveness",
-    "T6 Signal::wake (reachable only through T2-T4)",
+    "T6 Signal::wake / Signal::send / recv / terminate: their sequential contracts (the payload is moved before the final state is published; the final state is published by a store or compare_exchange with ordering >= Release; terminate publishes TERMINATED) are PROVED on the real text in U2 (rewrite X11: `this: *const Self` read as `&Self`); value-level behaviour by Kani K2; the concurrent half is assumed (R2, R2b: a failed LOCKED->final exchange means the waiter has published its thread handle)",
     "T7 KanalPtr constructors/read/write (assumed payload chain in U1; proved per size class by Kani group K1 where claimed)",
     "T8 Signal::assume_init / load_and_drop (assumed: require delivered resp. local value present)",
 ]
@@ -47,7 +47,7 @@ T_U2 = [
     "U2 stand-ins (prelude_u2.rs): AtomicBool / AtomicU8 / AtomicU32 / AtomicUsize, fence, Ordering with sequential one-directional contracts (a winning compare_exchange(false->true, >=Acquire) lets the caller conclude `acquired`; a load lets it conclude `observed(v)`); atomics are treated as sequentially consistent",
     "U2 trusted leaves: get_parallelism, random_u7, random_u32 (function-local statics), sleep / spin_hint / yield_now_std (std::thread), Instant::now and comparison (clock token), Waker::clone / will_wake, KanalPtr (opaque), UnsafeCell/Thread stand-ins",
     "glue between U1 and U2 (assumed, R2a): the signal states UNLOCKED and TERMINATED are final, so `observed(UNLOCKED)` (U2) is `delivered` (U1) and `observed(TERMINATED)` is `seen_terminated` / not delivered; L-MUTEX: `acquired` = holding the channel lock",
-    "not woven in U2 (raw-pointer dereferences `(*this)`, no installed tool reads them): Signal::wake, Signal::send/recv/terminate/send_copy, assume_init, load_and_drop, get_terminator, SignalTerminator::*; backoff::randomize/random_u32 (dead code)",
+    "not woven in U2: Signal::send_copy (unused), assume_init / load_and_drop (one-line wrappers of KanalPtr::read), get_terminator and SignalTerminator::* (pointer casts / one-line wrappers); backoff::randomize/random_u32 (dead code)",
 ]
 
 def mk(units, trusted, assumptions, explanation):
